@@ -224,7 +224,7 @@ Example C20_ops_nonvacuous :
     [(C20_Vec, [4#1; 4#1; 4#1]%Q); (C20_Arr, [4#1; 4#1; 4#1]%Q); (C20_Vec, [5#1; 4#1; 4#1]%Q); (C20_Vec, [8#1; 8#1; 8#1]%Q)].
 Proof. vm_compute; reflexivity. Qed.
 
-From Coq Require Import String.
+From Coq Require Import String. Local Open Scope list_scope.
 (* ---- str/repr: std::to_string(double) = "%f": the printed six decimals are the entry rounded to nearest, ties to even *)
 Theorem C20_str_rounding : forall q,
   let n := (Z.abs (Qnum q) * 1000000)%Z in
@@ -238,3 +238,69 @@ Example C20_str_nonvacuous :
   c20_str [1#2; -3#1; 1#128; 5#128]%Q = "(0.500000, -3.000000, 0.007812, 0.039062)"%string /\
   c20_repr [7#1]%Q = "Dune::FieldVector<1>(7.000000)"%string.
 Proof. vm_compute; split; reflexivity. Qed.
+
+(* ---- NumPyVector (numpyvector.hh): a C++ dense vector wrapped around a NumPy array without copying.
+   With the stride honoured (c31dbb5; holds for every cfg with cfg_npv_stride = true), for EVERY strided array object
+   (any stride, positive or negative) in any heap: entry i of the vector is entry i of the array; reading, writing and
+   in-place arithmetic through the C++ object ARE the Python-side read, write and update of the same cells, so writes on
+   either side are visible on the other (with C20_alias_write_seen / C20_ops_inplace_effect). *)
+Theorem C20_numpy_view : forall cfg st r o, cfg_npv_stride cfg = true ->
+  nth_error (c20_regs st) r = Some o -> c20_k o = C20_Arr -> c20_obj_ok (c20_H st) o -> c20_strided (c20_cells o) ->
+  c20_step cfg st (C20_NLen r) = c20_step cfg st (C20_Len r) /\
+  (forall i, (i < c20_size o)%nat -> c20_step cfg st (C20_NGet r i) = c20_step cfg st (C20_Get r (Z.of_nat i))) /\
+  (forall i x, (i < c20_size o)%nat -> c20_step cfg st (C20_NSet r i x) = c20_step cfg st (C20_Set r (Z.of_nat i) x)) /\
+  (forall i, (i < c20_size o)%nat -> c20_step cfg st (C20_NGet r i) = (st, C20_ObsScalar (nth i (c20_vals st o) 0%Q))) /\
+  (forall q, c20_step cfg st (C20_NIMulS r q) = c20_inplace st o (c20_vscale q (c20_vals st o))) /\
+  (forall q, c20_step cfg st (C20_NIAddS r q) = c20_inplace st o (c20_vadds q (c20_vals st o))) /\
+  (forall q, c20_step cfg st (C20_NISubS r q) = c20_inplace st o (c20_vsubs q (c20_vals st o))) /\
+  (forall q, c20_qeqb q 0 = false -> c20_step cfg st (C20_NIDivS r q) = c20_inplace st o (c20_vdiv q (c20_vals st o))) /\
+  c20_step cfg st (C20_NNorm1 r) = (st, C20_ObsScalar (c20_one_norm (c20_vals st o))) /\
+  c20_step cfg st (C20_NNorm22 r) = (st, C20_ObsScalar (c20_two_norm2 (c20_vals st o))) /\
+  c20_step cfg st (C20_NNormInf r) = (st, C20_ObsScalar (c20_inf_norm (c20_vals st o))).
+Proof. exact P_numpy_view. Qed.
+Print Assumptions C20_numpy_view.
+
+(* the hypothesis c20_strided is met by every arithmetic progression and by every slice of contiguous storage *)
+Theorem C20_numpy_strided_arith : forall (p s : Z) (n : nat), (forall k : nat, (k < n)%nat -> (0 <= p + Z.of_nat k * s)%Z) ->
+  c20_strided (map (fun k => Z.to_nat (p + Z.of_nat k * s)) (seq 0 n)).
+Proof. exact P_strided_arith. Qed.
+Print Assumptions C20_numpy_strided_arith.
+
+Theorem C20_numpy_slice_strided : forall base n a b c idx, c20_slice_indices n a b c = C20_Ok idx ->
+  c20_strided (map (fun j => nth j (seq base n) 0%nat) idx).
+Proof. exact P_slice_strided. Qed.
+Print Assumptions C20_numpy_slice_strided.
+
+(* the code before c31dbb5 ignored the stride: refuted (finding F-C20-3, x = arange(6), x[::2], entry 1) *)
+Theorem C20_numpy_view_refuted : exists st r o i,
+  nth_error (c20_regs st) r = Some o /\ c20_k o = C20_Arr /\ c20_wf st /\ (i < c20_size o)%nat /\
+  c20_step c20_cfg_current st (C20_NGet r i) <> c20_step c20_cfg_current st (C20_Get r (Z.of_nat i)).
+Proof. exact P_numpy_view_refuted. Qed.
+Print Assumptions C20_numpy_view_refuted.
+
+Example C20_numpy_view_nonvacuous :
+  let ops := [C20_NewArr [0; 1#1; 2#1; 3#1; 4#1; 5#1]%Q; C20_Slice 0 None None (Some (-2)%Z); C20_NGet 1 1; C20_NSet 1 2 (9#1)%Q; C20_NIMulS 1 (2#1)%Q] in
+  snd (c20_run c20_cfg_fixed c20_init ops) =
+    [C20_ObsObj C20_Arr [0; 1#1; 2#1; 3#1; 4#1; 5#1]%Q; C20_ObsObj C20_Arr [5#1; 3#1; 1#1]%Q; C20_ObsScalar (3#1)%Q; C20_ObsNone; C20_ObsNone] /\
+  c20_dump (fst (c20_run c20_cfg_fixed c20_init ops)) =
+    [(C20_Arr, [0; 18#1; 2#1; 6#1; 4#1; 10#1]%Q); (C20_Arr, [10#1; 6#1; 18#1]%Q)].
+Proof. vm_compute; split; reflexivity. Qed.
+
+(* ---- TupleVector: "tuple-vector wrappers preserve the element types and values they were built from" *)
+Theorem C20_tuple : forall x : list c20_tval,
+  c20_tv_construct x = Some x /\
+  (forall i, (0 <= i < Z.of_nat (List.length x))%Z -> c20_tv_getitem x i = C20_Ok (nth (Z.to_nat i) x (C20_TInt 0))) /\
+  (forall i, (Z.of_nat (List.length x) <= i)%Z -> c20_tv_getitem x i = C20_Exc C20_IndexError) /\
+  (forall i v, (0 <= i < Z.of_nat (List.length x))%Z -> c20_tv_type v = c20_tv_type (nth (Z.to_nat i) x (C20_TInt 0)) ->
+     exists x', c20_tv_setitem x i v = C20_Ok x' /\ List.length x' = List.length x /\ map c20_tv_type x' = map c20_tv_type x /\
+       (forall k, (k < List.length x)%nat -> nth k x' (C20_TInt 0) = if Nat.eqb k (Z.to_nat i) then v else nth k x (C20_TInt 0)) /\
+       c20_tv_copy x = x).
+Proof. exact P_tuple. Qed.
+Print Assumptions C20_tuple.
+
+Example C20_tuple_nonvacuous :
+  let x := [C20_TFloat (17#1); C20_TVec [2#1; 2#1]%Q; C20_TInt 5] in
+  c20_tv_construct x = Some x /\ c20_tv_getitem x 1 = C20_Ok (C20_TVec [2#1; 2#1]%Q) /\
+  c20_tv_getitem x 3 = C20_Exc C20_IndexError /\ c20_tv_getitem x (-1) = C20_Exc C20_TypeError /\
+  c20_tv_setitem x 2 (C20_TFloat (1#2)) = C20_Exc C20_RuntimeError.
+Proof. vm_compute; repeat split; reflexivity. Qed.
